@@ -25,7 +25,8 @@ import beacon
 PID = "C03"
 CLASSES = {"header": 0, "proposer_signature": 0, "randao": 0, "attestation": 0, "attester_slashing": 0, "proposer_slashing": 0,
            "deposit": 0, "exit": 0, "limits": 0, "indexed_attestation_shape": 0,
-           "attestation_data_slashability": 0, "slashable_boundary": 0, "exit_status": 0, "sync_aggregate": 1, "payload": 2, "withdrawals": 3, "bls_change": 3, "blobs": 4}
+           "attestation_data_slashability": 0, "slashable_boundary": 0, "exit_status": 0,
+           "deposit_none_expected": 0, "deposit_count_underflow": 0, "sync_aggregate": 1, "payload": 2, "withdrawals": 3, "bls_change": 3, "blobs": 4}
 FORKS = ["phase0", "altair", "bellatrix", "capella", "deneb"]
 _MARK = re.compile(r'<<\s*"(MISMATCH|CONTROL|UNJUDGED|MODELREJECT)",\s*(\d+),\s*"(\w+)"\s*>>')
 
@@ -90,6 +91,9 @@ CONDITIONS = {
     "attester slashing: some validator slashable (withdrawable boundary)": (P0, ["aslash-withdrawable-now", "aslash-withdrawable-next-control"]),
     # process_deposit / deposit count
     "deposits: count == min(MAX_DEPOSITS, pending)": (P0, ["deposit-missing", "deposit-extra"]),
+    "deposits: none expected when deposit_count == eth1_deposit_index": (P0, ["deposit-one-when-none-expected"]),
+    "deposits: deposit_count - eth1_deposit_index underflows (every block invalid)": (P0, ["deposit-count-below-index-no-deposits",
+                                                                                         "deposit-count-below-index-one-deposit"]),
     "deposit: merkle proof": (P0, ["deposit-bad-proof", "deposit-proof-top-level", "deposit-proof-length-mixin",
                                    "deposit-amount-edited", "deposit-swapped-order"]),
     # process_voluntary_exit
